@@ -37,7 +37,7 @@ type DevEv struct {
 
 type Dev struct {
 	Family    string   `json:"family"`
-	Addrs     []string `json:"addrs"` // 0 = A (alone), 1 = F (flood), 2 = S (spaced)
+	Addrs     []string `json:"addrs"` // 0 = A (alone), 1 = F (flood), 2.. = spaced senders: neighbours of F and a distant one
 	Events    []DevEv  `json:"events"`
 	Alone     []bool   `json:"alone"`
 	Control   []string `json:"control"` // "<what>@<index of the next event>"
@@ -51,8 +51,8 @@ type Dev struct {
 const (
 	devSpacing   = 60 * time.Millisecond
 	devMinGap    = 55 * time.Millisecond // guaranteed between the end of one spaced step and the start of the next
-	devMaxStep   = 20 * time.Millisecond // a step (inject + settle) slower than this is a stall
-	devTol       = 25 * time.Millisecond
+	devMaxStep   = 30 * time.Millisecond // a step (inject + settle) slower than this is a stall
+	devTol       = 35 * time.Millisecond
 	devNSpaced   = 9
 	devFloodTick = time.Millisecond
 )
@@ -64,10 +64,13 @@ type devPeer struct {
 }
 
 func devAddrs(family string) []string {
+	// The spaced senders are neighbours of the flooding address: they differ from
+	// it in the last byte only, in byte 8 only (same /64), in the zone only, or are
+	// its IPv4-mapped form; the last one is a distant address.
 	if family == "v6" {
-		return []string{"2001:db8:a::1", "2001:db8:bad::66", "2001:db8:600d::9"}
+		return []string{"2001:db8:a::1", "fe80::66%eth0", "fe80::67%eth0", "fe80::100:0:0:66%eth0", "fe80::66%eth1", "2001:db8:600d::9"}
 	}
-	return []string{"198.51.100.21", "198.51.100.66", "203.0.113.9"}
+	return []string{"198.51.100.21", "198.51.100.66", "198.51.100.67", "::ffff:198.51.100.66", "203.0.113.9"}
 }
 
 // one attempt; reason != "" means the trace must be discarded (stall / anomaly)
@@ -154,24 +157,26 @@ func devAttempt(family string) (evs []DevEv, alone []bool, control []string, rea
 		evs = append(evs, ev)
 		alone = append(alone, ev.D)
 	}
-	// phase 2: F floods, S spaced
+	// phase 2: F floods, the spaced senders (2..) each send every 60 ms
 	nS := 0
 	var nextS time.Time
-	lastEnd = time.Time{}
+	lastEnds := make([]time.Time, len(addrs))
 	for nS < devNSpaced {
 		it := time.Now()
 		if nS == 0 || !it.Before(nextS) {
-			ev, r := send(2)
-			if r != "" {
-				return nil, nil, nil, "spaced: " + r
+			for i := 2; i < len(addrs); i++ {
+				ev, r := send(i)
+				if r != "" {
+					return nil, nil, nil, "spaced: " + r
+				}
+				if nS > 0 && time.Unix(0, ev.Tb).Sub(lastEnds[i]) < devMinGap {
+					return nil, nil, nil, "spaced: spacing lost"
+				}
+				lastEnds[i] = time.Unix(0, ev.Ta)
+				evs = append(evs, ev)
 			}
-			if nS > 0 && time.Unix(0, ev.Tb).Sub(lastEnd) < devMinGap {
-				return nil, nil, nil, "spaced: spacing lost"
-			}
-			lastEnd = time.Unix(0, ev.Ta)
-			nextS = lastEnd.Add(devSpacing)
+			nextS = time.Now().Add(devSpacing)
 			nS++
-			evs = append(evs, ev)
 		} else {
 			ev, r := send(1)
 			if r != "" {
@@ -227,7 +232,7 @@ func devAttempt(family string) (evs []DevEv, alone []bool, control []string, rea
 
 func runDev(family string) *Dev {
 	d := &Dev{Family: family, Addrs: devAddrs(family), TolNs: int64(devTol)}
-	for attempt := 0; attempt < 3; attempt++ {
+	for attempt := 0; attempt < 4; attempt++ {
 		evs, alone, control, reason := devAttempt(family)
 		if reason != "" {
 			d.Discarded++
@@ -253,8 +258,12 @@ func runDev(family string) *Dev {
 	if n := len(d.Events); n > 0 {
 		span = float64(d.Events[n-1].Ta-d.Events[0].Tb) / 1e9
 	}
-	d.Summary = fmt.Sprintf("%s: alone %s %d sent %d processed; flooding %s %d sent %d processed; spaced %s %d sent %d processed (%.2fs, control %v, %d attempts discarded)",
-		family, d.Addrs[0], cnt[0][0], cnt[0][1], d.Addrs[1], cnt[1][0], cnt[1][1], d.Addrs[2], cnt[2][0], cnt[2][1], span, d.Control, d.Discarded)
+	var sp []string
+	for i := 2; i < len(d.Addrs); i++ {
+		sp = append(sp, fmt.Sprintf("%s %d/%d", d.Addrs[i], cnt[i][1], cnt[i][0]))
+	}
+	d.Summary = fmt.Sprintf("%s: alone %s %d sent %d processed; flooding %s %d sent %d processed; spaced (processed/sent) %s (%.2fs, control %v, %d attempts discarded)",
+		family, d.Addrs[0], cnt[0][0], cnt[0][1], d.Addrs[1], cnt[1][0], cnt[1][1], strings.Join(sp, ", "), span, d.Control, d.Discarded)
 	return d
 }
 
